@@ -296,7 +296,15 @@ def cases_C(tier):
     out = [{"part": "C", "fit": f["name"], "profile": "current"} for f in fits]
     if tier == "thorough":
         out += [{"part": "C", "fit": f["name"], "profile": "dev_all_splits"} for f in FITS[:4]]
+    # every selection criterion the settings accept (developer option split_selection.criteria)
+    for crit in CRITERIA:
+        for f in (FITS[:4] if tier == "thorough" else FITS[1:2]):
+            if crit != "bic":
+                out.append({"part": "C", "fit": f["name"], "profile": "crit:" + crit})
     return out
+
+
+CRITERIA = ["rmse", "rmse_adj", "r_squared", "r_squared_adj", "aic", "aicc", "caic", "bic", "sabic", "fpe"]
 
 
 def run_C(case):
@@ -308,9 +316,11 @@ def run_C(case):
     settings = None
     if case["profile"] == "dev_all_splits":
         settings = make_settings((1, 1, 1, 1), 0, "default", "default")
+    if case["profile"].startswith("crit:"):
+        settings = {"developer_mode": True, "silent_developer_mode": True, "split_selection": {"criteria": case["profile"][5:]}}
     m = em.DailyModel(settings=settings).fit(em.DailyBaselineData(df, is_electricity_data=True), ignore_disqualification=True)
     viol = []
-    key = {"part": "selection"}
+    key = {"part": "selection", **({"criteria": case["profile"][5:]} if case["profile"].startswith("crit:") else {})}
     crit = [float(m._combination_selection_criteria(c)) for c in m.combinations]
     best = m.combinations[int(np.argmin(crit))]
     if "fw-su_sh_wi" not in m.combinations:
